@@ -14,7 +14,11 @@ def structs(count, seed):
     out = [{"n": 0, "pairs": []}, {"n": 5, "pairs": []}, {"n": 3, "pairs": [[1, 3]]},
            {"n": 8, "pairs": [[1, 8], [2, 7], [4, 5]]}, {"n": 14, "pairs": [[1, 8], [2, 7], [5, 12], [6, 11], [3, 14]]},
            {"n": 16, "pairs": [[1, 6], [2, 5], [4, 10], [8, 14], [9, 13], [12, 16]]},
-           {"n": 12, "pairs": [[1, 5], [3, 8], [6, 11], [9, 12]]}]
+           {"n": 12, "pairs": [[1, 5], [3, 8], [6, 11], [9, 12]]},
+           # five and six mutually crossing stems: the notation needs the letter brackets (orders >= 4)
+           {"n": 12, "pairs": [[1, 7], [2, 8], [3, 9], [4, 10], [5, 11]]},
+           {"n": 21, "pairs": [[1, 12], [2, 11], [3, 14], [5, 16], [7, 18], [8, 17], [9, 20], [10, 21]]},
+           {"n": 14, "pairs": [[1, 8], [2, 9], [3, 10], [4, 11], [5, 12], [6, 13]]}]
     while len(out) < count:
         n = rng.randint(6, 30)
         pairs = ss.random_structure(rng, n, ladder=rng.choice([0, 0, 2, 3]), stems=rng.randint(1, 6), maxlen=rng.randint(1, 3))
